@@ -81,13 +81,13 @@ def argsOKb (ms0 : List Macro) : Nat → List Tok → List Tok → Bool
         if isFunNameb ms0 t then
           match macroget ms0 (t.lit.getD []), r with
           | some FG, lp :: r'' =>
-            !t.hide && FG.func && decide (lp.kind = .TLPAREN) && !lp.hide &&
+            !t.hide && FG.func && decide (lp.kind = .TLPAREN) && !lp.hide && decide (Spellable t ∧ Spellable lp) &&
             (match collect FG.params 0 0 [] [] r'' with
               | .ok (argsG, rest'') =>
                 argsOKb ms0 f r'' rest'' && argsG.all (fun a => !a.isEmpty) && argsOKb ms0 f rest'' rest
               | .error _ => false)
           | _, _ => false
-        else argTokOKb ms0 t && argsOKb ms0 f r rest
+        else argTokOKb ms0 t && decide (Spellable t) && argsOKb ms0 f r rest
 
 theorem argsOK_of_b (ms0 : List Macro) : ∀ (f : Nat) (L rest : List Tok), argsOKb ms0 f L rest = true → ArgsOK ms0 L rest
   | 0, _, _, h => by simp [argsOKb] at h
@@ -114,7 +114,7 @@ theorem argsOK_of_b (ms0 : List Macro) : ∀ (f : Nat) (L rest : List Tok), args
             | nil => simp at h
             | cons lp r'' =>
               simp only [Bool.and_eq_true, Bool.not_eq_true', decide_eq_true_eq] at h
-              obtain ⟨⟨⟨⟨h1, h2⟩, h3⟩, h3'⟩, h4⟩ := h
+              obtain ⟨⟨⟨⟨⟨h1, h2⟩, h3⟩, h3'⟩, hsp⟩, h4⟩ := h
               cases hc : collect FG.params 0 0 [] [] r'' with
               | error e => rw [hc] at h4; simp at h4
               | ok v =>
@@ -122,11 +122,11 @@ theorem argsOK_of_b (ms0 : List Macro) : ∀ (f : Nat) (L rest : List Tok), args
                 rw [hc] at h4
                 simp only [Bool.and_eq_true, List.all_eq_true, Bool.not_eq_true', List.isEmpty_eq_false_iff] at h4
                 obtain ⟨⟨h5, h6⟩, h7⟩ := h4
-                exact .call t lp r'' FG argsG rest'' rest hk h1 hm h2 h3 h3' hc (argsOK_of_b ms0 f _ _ h5) h6
+                exact .call t lp r'' FG argsG rest'' rest hk h1 hm h2 h3 h3' hc (argsOK_of_b ms0 f _ _ h5) h6 hsp
                   (argsOK_of_b ms0 f _ _ h7)
         · rw [if_neg hfn] at h
-          simp only [Bool.and_eq_true] at h
-          exact .tok t r rest (argTokOK_of_b h.1) (argsOK_of_b ms0 f _ _ h.2)
+          simp only [Bool.and_eq_true, decide_eq_true_eq] at h
+          exact .tok t r rest (argTokOK_of_b h.1.1) h.1.2 (argsOK_of_b ms0 f _ _ h.2)
 
 /-- executable test for `TextP` (`fuel` = at least the length of the text plus one) -/
 def textPb (ms0 : List Macro) : Nat → List Tok → Bool
